@@ -18,17 +18,20 @@
     * `raft_leader_has_quorum`       every leader was granted by a majority
     * `raft_log_matching`            same (position, term) in two logs ⇒ identical prefixes (full)
     * `raft_log_wellformed`          index consistency of logs and AppendEntries segments
-  PARTIAL (full statement kept as `def …Statement`):
-    * `RaftCommittedPrefixAgreementStatement` - reduced to ONE named missing lemma:
-      `raft_agreement_of_leader_completeness : RaftLeaderCompletenessStatement n → RaftCommittedPrefixAgreementStatement n`
-      (proved, via `raft_commit_provenance` and log matching); `RaftLeaderCompletenessStatement` itself is only stated.
-      Also `raft_committed_prefix_agreement_partial` (commit <= log length, emitted <= commit).
+  STATE MACHINE SAFETY (the property clause for Raft) - FULL:
+    * `raft_leader_completeness`     RAFT §5.4.3 on the executions instrumented with the canonical history
+                                     variables `tl` / `cm` (per-term leader log / leader commit index)
+    * `raft_committed_prefix_agreement`  in every state reached by any sequence of `raft_step` calls the committed
+                                     prefixes of any two members agree position by position
+    * `raft_agreement_of_leader_completeness`, `raft_commit_provenance`, `raft_no_retraction`,
+      `raft_committed_prefix_agreement_partial` (commit <= log length, emitted <= commit)
 -/
 import HvProto.Lemmas.PaxosInst
 import HvProto.Lemmas.RaftRefine
 import HvProto.Lemmas.RaftLog
 import HvProto.Lemmas.RaftMatch
 import HvProto.Lemmas.RaftCommit
+import HvProto.Lemmas.RaftLC3
 
 namespace HvProto.C40
 open HvProto
@@ -223,17 +226,25 @@ theorem raft_committed_prefix_agreement_partial (n : Nat) (s : Raft.Sys) (h : Ra
   have hw := Raft.aux_winv_reach n s h
   exact ⟨hw.commitLe v, hw.emitLe v⟩
 
+/-- No retraction: a `raft_step` call (in any reachable state, by any member, on any batch of sent messages)
+    never decreases a member's `commit_index` and never changes its committed prefix - the truncation guard
+    `entry.index > state.commit_index` of the append loop (the `assert!` behind it makes the step panic, i.e. the
+    member stops, instead of truncating committed entries). -/
+theorem raft_no_retraction (n : Nat) (s s' : Raft.Sys) (h : Raft.Reach n s) (hs : Raft.MacroStep n s s') (v : Nat) :
+    (s.nodes v).commitIndex ≤ (s'.nodes v).commitIndex ∧
+    (s'.nodes v).log.take (s.nodes v).commitIndex = (s.nodes v).log.take (s.nodes v).commitIndex :=
+  Raft.aux_no_retraction n s s' h hs v
+
 /-- **Leader completeness** (RAFT §5.4.3), stated on the executions instrumented with two history variables
     that are determined by the execution (`Raft.GReach`, Lemmas/RaftCommit.lean): `tl u` / `cm u` = the log /
     the `commit_index` of the leader of term `u` as of the last state in which it was leader.  It says: whenever
     a later term `u > t` has a leader, the log of that leader (from its election on) starts with the `cm t`
-    entries the leader of term `t` has committed.  NOT PROVED (it needs the interplay of the commit rule -
-    current-term entry acknowledged by a majority through `match_index` - with the §5.4.1 vote check). -/
+    entries the leader of term `t` has committed.  Proved below (`raft_leader_completeness`). -/
 def RaftLeaderCompletenessStatement (n : Nat) : Prop :=
   ∀ s tl cm, Raft.GReach n s tl cm → ∀ t u, t < u → (∃ c, s.elected c u) →
     (tl u).take (cm t) = (tl t).take (cm t)
 
-/-- The reduction: leader completeness is the ONLY missing lemma.  Committed-prefix agreement follows from it
+/-- The reduction.  Committed-prefix agreement follows from leader completeness
     by commit provenance (proved: every member's committed prefix is a prefix of the term log of a term whose
     leader had committed at least as much - it was adopted by `min(leader_commit, new_match)` from an accepted
     `AppendEntries` of that leader after the append loop made the log equal to the leader's up to `new_match`,
@@ -251,7 +262,8 @@ theorem raft_commit_provenance (n : Nat) (s : Raft.Sys) (h : Raft.Reach n s) :
       (∀ c, (s.nodes c).role = .leader →
         tl (s.nodes c).term = (s.nodes c).log ∧ cm (s.nodes c).term = (s.nodes c).commitIndex) ∧
       (∀ u, cm u ≤ (tl u).length) ∧
-      ∀ v, ∃ t, ((∃ c, sm.elected c t) ∨ (s.nodes v).commitIndex = 0) ∧ (s.nodes v).commitIndex ≤ cm t ∧
+      ∀ v, ∃ t, t ≤ (s.nodes v).term ∧ ((∃ c, sm.elected c t) ∨ (s.nodes v).commitIndex = 0) ∧
+        (s.nodes v).commitIndex ≤ cm t ∧
         (s.nodes v).log.take (s.nodes v).commitIndex = (tl t).take (s.nodes v).commitIndex := by
   obtain ⟨sm, hrm, hn, hnet, _⟩ := Raft.aux_reach_sim n s h
   obtain ⟨tl, cm, hg⟩ := Raft.aux_greach_exists n sm hrm
@@ -259,6 +271,39 @@ theorem raft_commit_provenance (n : Nat) (s : Raft.Sys) (h : Raft.Reach n s) :
   refine ⟨sm, tl, cm, hg, hn, hnet, ?_, hc.cmLe, ?_⟩
   · intro c hr; rw [hn] at hr ⊢; exact ⟨hi.leaderLog c hr, hc.leaderCm c hr⟩
   · intro v; rw [hn]; exact hc.nodeC v
+
+/-- **Leader completeness** (RAFT §5.4.3) for every execution, proved from the interplay of the commit rule
+    (`advanceLoop`: an entry of the leader's CURRENT term at position `k` with `match_index >= k` on a majority;
+    every `match_index` entry is backed by a successful `AppendEntriesReply` of that term, which the follower sent
+    when its log equalled the leader's up to `k`) with the §5.4.1 vote check (`(last_log_term, last_log_index)` of the
+    candidate >= the voter's): by induction on the later term, the election quorum of `u` and the acknowledging
+    majority share a member, which voted after acknowledging and can only have lost the prefix to a leader of an
+    intermediate term (Lemmas/RaftLC.lean, RaftLC2.lean, RaftLC3.lean; invariants `LInv`, `QInv`). -/
+theorem raft_leader_completeness (n : Nat) : RaftLeaderCompletenessStatement n :=
+  Raft.aux_leader_completeness n
+
+/-- **State machine safety**, full: in every state reached by ANY sequence of `raft_step` calls (any members, any
+    batches of sent messages - loss, duplication, reordering -, any timers, any requests; a crashed or panicked
+    member takes no more steps) no two members have committed different entries at the same log position. -/
+theorem raft_committed_prefix_agreement (n : Nat) : RaftCommittedPrefixAgreementStatement n :=
+  raft_agreement_of_leader_completeness n (raft_leader_completeness n)
+
+/-- the same, spelled out: committed prefixes of two members are equal as lists up to the smaller commit index -/
+theorem raft_committed_prefixes_comparable (n : Nat) (s : Raft.Sys) (h : Raft.Reach n s) (a b : Nat)
+    (hab : (s.nodes a).commitIndex ≤ (s.nodes b).commitIndex) :
+    (s.nodes a).log.take (s.nodes a).commitIndex = (s.nodes b).log.take (s.nodes a).commitIndex := by
+  have hw := Raft.aux_winv_reach n s h
+  apply List.ext_getElem?
+  intro i
+  by_cases hi : i < (s.nodes a).commitIndex
+  · have h1 := raft_committed_prefix_agreement n s h a b i hi (by omega)
+    have la := hw.commitLe a
+    have lb := hw.commitLe b
+    simp only [List.getElem?_take, hi, if_true]
+    simp only [List.getD_eq_getElem?_getD] at h1
+    rw [List.getElem?_eq_getElem (by omega), List.getElem?_eq_getElem (by omega)] at h1 ⊢
+    simpa using h1
+  · simp only [List.getElem?_take, hi, if_false]
 
 /-! non-vacuity of the commit statements: the execution of `RaftExample` continued by a heartbeat of the
     leader, the follower's acceptance and the leader's commit - six `raft_step` calls after which member 0 has
